@@ -81,7 +81,30 @@ func (g *GroupWorld) newInstance(asg string, fleet bool) *Inst {
 	return i
 }
 
-func (g *GroupWorld) nodeNameFor(i *Inst) string { return "ip-" + i.ID }
+// nodeNameFor: nodes are named after private IPs, and IPs are recycled: a new instance takes the lowest
+// address that no live instance of the group and no existing Node object uses.
+func (g *GroupWorld) nodeNameFor(i *Inst) string {
+	if i.NodeName != "" {
+		return i.NodeName
+	}
+	used := map[string]bool{}
+	for _, x := range g.w.aws.insts {
+		if x.Owner == g.name && x.NodeName != "" && x.EC2State != "terminated" && !(x.Life == "Terminating" && !x.GoneAt.IsZero() && !time.Now().Before(x.GoneAt)) {
+			used[x.NodeName] = true
+		}
+	}
+	for k := 1; ; k++ {
+		name := fmt.Sprintf("ip-10-%d-0-%d", g.cfg.Idx, k)
+		if used[name] {
+			continue
+		}
+		if _, exists := g.w.kube.nodes[name]; exists {
+			continue
+		}
+		i.NodeName = name
+		return name
+	}
+}
 
 func (g *GroupWorld) scheduleRegistration(i *Inst) {
 	s := g.s("reg")
@@ -178,7 +201,10 @@ func (g *GroupWorld) makeNode(i *Inst, created time.Time) *v1.Node {
 func (g *GroupWorld) instanceTerminated(i *Inst) {
 	// the Node object of a terminated instance is removed by the cloud node
 	// lifecycle controller after a while, unless escalator deletes it first
-	name := g.nodeNameFor(i)
+	if i.NodeName == "" {
+		return // never registered as a Node
+	}
+	name := i.NodeName
 	s := g.s("gc")
 	d := time.Duration(2+s.Intn(6)) * g.w.cfg.ScanInterval
 	g.w.after(d, "node-gc", func() {
@@ -876,7 +902,7 @@ func (g *GroupWorld) operatorAction(s *Stream, prefer string) {
 		}
 		for _, id := range w.aws.sortedInstIDs() {
 			i := w.aws.insts[id]
-			if g.nodeNameFor(i) == n.Name && i.Life != "Terminating" {
+			if i.NodeName == n.Name && i.Owner == g.name && i.Life != "Terminating" {
 				i.Life, i.EC2State = "Terminating", "terminated"
 				i.GoneAt = time.Now().Add(w.drawGone(i))
 				g.instanceTerminated(i)
